@@ -73,6 +73,8 @@ class DescriptorMixin:
     def shape_facts(self, n):
         c = Z.f_child(n)
         facts = [Z.truth_node(n), z3.Not(Z.is_value(n)), has_child(n) == (c != Z.NoneNode)]
+        # class invariant: a descriptor only ever copies its flag from its conditions; without conditions it stays False
+        facts.append(z3.Implies(c == Z.NoneNode, z3.Not(z3.Select(z3.Const('is_false0', Z.ArrNB), n))))
         facts += [z3.Implies(c != Z.NoneNode, f) for f in child_shape(n, c) if not f.eq(c != Z.NoneNode)]
         # the conditions root stands in condition position (it is `_conditions_root_` by construction)
         facts += [z3.Implies(c != Z.NoneNode, Z.cond_pos(c))]
@@ -84,7 +86,17 @@ class DescriptorMixin:
             for j in range(i):
                 facts += tree_shape(sels[j], s)[:1] + [Z.nid(sels[j]) != Z.nid(s)]
         facts.append(Binds(n) == only_ids([Z.nid(s) for s in sels]))
+        if getattr(self, 'leaf_selected', False):
+            facts += [z3.Select(LeafIds, Z.nid(s)) for s in sels]
+            facts += [Z.SubIds(s) == only_ids([Z.nid(s)]) for s in sels]
         return facts
+
+    def signature(self, ob, model):
+        sig = super().signature(ob, model)
+        n = z3.Const('self', Z.Node)
+        for i, s in enumerate(self.sel(n)):
+            sig[f'selected{i}_is_plain_variable'] = str(model.eval(z3.Select(LeafIds, Z.nid(s)), model_completion=True))
+        return sig
 
     def position_assumed(self, st, c):
         # T3: a selected expression is evaluated as a value; it is assumed not to be, at the same time, a direct
@@ -216,6 +228,7 @@ class QODEvaluate(DescriptorMixin, EvalContract):
             rows = []
             for i, (k, stream) in enumerate(items):
                 c = stream.data['node']
+                b.ghost['frames'] = b.ghost.get('frames', []) + [c]
                 sig, sref = self.sigma_of(eng, b, stream)
                 row = eng.new_dict(b, Z.ZMap.fresh(f'prow{i}'))
                 m = self.assume_row(b, c, sig, stream.data['ywf'], b.dicts[row.ref], filt(c, b.fields['eval_parent']))
@@ -273,10 +286,18 @@ class QODEvaluate(DescriptorMixin, EvalContract):
         return outs
 
 
+class QODEvaluateLeaf(QODEvaluate):
+    """selected variables are plain variables (leaves): the case of C01 / C02"""
+    props = ('C01', 'C02')
+    K = 1
+    leaf_selected = True
+
+
 class QODEvaluate2(QODEvaluate):
     """the same with two selected variables (set_of): Cartesian completion of two unbound selected variables."""
     K = 2
-    props = ('C02', 'C16')
+    props = ('C02',)
+    leaf_selected = True
 
 
 class QODEvaluate0(QODEvaluate):
@@ -320,6 +341,7 @@ class SetOfEval(DescriptorMixin, EvalContract):
         e = st.clone()
         fc = filt(c, st.fields['eval_parent'])
         hyp = lambda r: z3.And(Z.ext(r, sig), WD(c, r), z3.Implies(fc, z3.Or(Z.Den(c, r), s.data['ywf'])))
+        e.assume(z3.Not(z3.And(sig.contains(Z.nid(c)), z3.Not(lab(c)))))      # clause NE of the interface
         e.qf.append(lambda r: z3.Not(hyp(r)))
         for env in e.ghost.get('envs', []):
             e.assume(e.qf[-1](env))
@@ -327,4 +349,4 @@ class SetOfEval(DescriptorMixin, EvalContract):
         return outs
 
 
-CONTRACTS = [AnEval, EntityEval, EntityNoVarEval, QODEvaluate, QODEvaluate2, QODEvaluate0, SetOfEval]
+CONTRACTS = [AnEval, EntityEval, EntityNoVarEval, QODEvaluate, QODEvaluateLeaf, QODEvaluate2, QODEvaluate0, SetOfEval]
